@@ -4,7 +4,8 @@ import json, sys
 pid, wt = sys.argv[1], sys.argv[2]
 n = sys.argv[3] if len(sys.argv) > 3 else "3"
 ROUND2 = len(sys.argv) > 4 and sys.argv[4] == "round2"
-R2 = ("This is a SECOND round: an earlier reviewer already tried the most obvious slips (an off-by-one in the main loop of the central function, a dropped guard in the most used entry point). Look further afield: rarely used API variants and class-table methods, interactions between two functions (one leaves state the other relies on), state carried across calls or across objects, behaviour at internal capacities and growth steps, error/refusal paths, the less common implementation of an interface, configuration-dependent code.  Each change must still be small and realistic." if ROUND2 else "")
+ROUND3 = len(sys.argv) > 4 and sys.argv[4] == "round3"
+R2 = ("This is a THIRD round: two earlier reviewers have already tried off-by-one slips in the central loops, dropped or moved guards, wrong bounds on scratch buffers, prefix-instead-of-exact comparisons, stale state between two calls, and missing updates on the less common implementation of an interface. Find defects of a DIFFERENT character: wrong behaviour only for a particular combination of two or three options/flags/arguments; arithmetic on sizes or indices that is wrong only at a type boundary or sign change; an error/refusal path that leaves a half-updated object behind; a resource (descriptor, temporary file, heap block) mishandled only when an earlier step failed; order-of-evaluation or aliasing problems when the same object is passed twice; behaviour that differs between the first use and a later use of the same object or subsystem. Each change must still be small and realistic." if ROUND3 else "This is a SECOND round: an earlier reviewer already tried the most obvious slips (an off-by-one in the main loop of the central function, a dropped guard in the most used entry point). Look further afield: rarely used API variants and class-table methods, interactions between two functions (one leaves state the other relies on), state carried across calls or across objects, behaviour at internal capacities and growth steps, error/refusal paths, the less common implementation of an interface, configuration-dependent code.  Each change must still be small and realistic." if ROUND2 else "")
 p = [json.loads(l) for l in open('/verif/properties.jsonl') if json.loads(l)['id'] == pid][0]
 EXTRA = {
  "C15": "NOTE on configuration: the worktree is configured with DEBUG=4 (config.h says `#define DEBUG 4`), so memory tracking (DEBUG >= 5) is compiled OUT of the default build and the suite never runs it. A demonstration for this property therefore has to compile the library sources itself at DEBUG=5: write demo.sh (argument $1 = the library root directory) which creates a temporary directory, copies $1/config.h into it with the DEBUG line changed to 5, compiles $1/src/*.c (except avl_tree.c) and demo.c with `-DHAVE_CONFIG_H -I<tmpdir> -I$1/include -I$1/include/libast -I$1` (the temporary directory FIRST so its config.h wins), links with the libraries listed below, runs the program with the runtime level set by the program itself (`libast_debug_level = 5;`) and exits with the program's exit status; demo.sh must exit 0 on the unmodified sources and non-zero with your change. The tracker's table is private (static in src/mem.c): a demo can observe it through MALLOC_DUMP() / spifmem_dump_mem_tables() output on stderr.",
